@@ -5,6 +5,70 @@ use wow_world_base::shared::DateTime;
 
 mod dt;
 
+macro_rules! enum_ops {
+    ($t:ty, $src:expr, $n:expr, [$($s:ident),*]) => {{
+        let n: i128 = $n;
+        match $src {
+            $( stringify!($s) => match <$s>::try_from(n) {
+                Ok(v) => Some(match <$t as TryFrom<$s>>::try_from(v) {
+                    Ok(t) => format!("ok {:?} {}", t, t.as_int() as i128),
+                    Err(e) => format!("err {} {}", e.name, e.value),
+                }),
+                Err(_) => None,
+            }, )*
+            "variants" => Some(<$t>::variants().iter().map(|v| format!("{:?}:{}", v, v.as_int() as i128)).collect::<Vec<_>>().join(" ")),
+            "from_int" => match n.try_into() {
+                Ok(v) => Some(match <$t>::from_int(v) {
+                    Ok(t) => format!("ok {:?} {}", t, t.as_int() as i128),
+                    Err(e) => format!("err {} {}", e.name, e.value),
+                }),
+                Err(_) => None,
+            },
+            _ => None,
+        }
+    }};
+}
+
+macro_rules! flag_ops {
+    ($t:ty, $b:ty, $raw:expr, $rhs:expr, [$(($name:literal, $is:ident, $new:ident, $set:ident, $clear:ident)),*], [$(($cname:literal, $c:ident)),*]) => {{
+        let raw = $raw as $b;
+        let rhs = $rhs as $b;
+        let x = <$t>::new(raw);
+        let r = <$t>::new(rhs);
+        let mut a = x; a &= r;
+        let mut o = x; o |= r;
+        let mut z = x; z ^= r;
+        let mut s = format!("new={} empty={} isempty={} all={} and={} or={} xor={} anda={} ora={} xora={}",
+            x.as_int(), <$t>::empty().as_int(), x.is_empty(), <$t>::all().as_int(),
+            (x & r).as_int(), (x | r).as_int(), (x ^ r).as_int(), a.as_int(), o.as_int(), z.as_int());
+        $( {
+            let mut y = x; let sret = y.$set().as_int(); let safter = y.as_int();
+            let mut y2 = x; let cret = y2.$clear().as_int(); let cafter = y2.as_int();
+            s += &format!(" {}:is={},new={},set={},{},clear={},{}", $name, x.$is(), <$t>::$new().as_int(), sret, safter, cret, cafter);
+        } )*
+        $( s += &format!(" const:{}={}", $cname, <$t>::$c); )*
+        s
+    }};
+}
+
+macro_rules! flag_conv_ops {
+    ($t:ty, $src:expr, $n:expr, [$($s:ident),*]) => {{
+        let n: i128 = $n;
+        match $src {
+            $( stringify!($s) => match <$s>::try_from(n) {
+                Ok(v) => Some(match <$t as TryFrom<$s>>::try_from(v) {
+                    Ok(t) => format!("some {}", t.as_int()),
+                    Err(_) => "none".to_string(),
+                }),
+                Err(_) => None,
+            }, )*
+            _ => None,
+        }
+    }};
+}
+
+mod gen_defs;
+
 fn handle(ws: &[&str]) -> String {
     match ws {
         ["dt", n] => match n.parse::<u32>() {
@@ -18,6 +82,18 @@ fn handle(ws: &[&str]) -> String {
         ["dtfields", a, b] => match (a.parse::<u64>(), b.parse::<u64>()) {
             (Ok(lo), Ok(hi)) => dt::field_sweep(lo, hi),
             _ => "bad-op".into(),
+        },
+        ["enum", key, src, n] => match n.parse::<i128>() {
+            Ok(n) => gen_defs::enum_call(key, src, n).unwrap_or_else(|| "skip".into()),
+            Err(_) => "bad-op".into(),
+        },
+        ["flag", key, raw, rhs] => match (raw.parse::<u64>(), rhs.parse::<u64>()) {
+            (Ok(a), Ok(b)) => gen_defs::flag_call(key, a, b).unwrap_or_else(|| "skip".into()),
+            _ => "bad-op".into(),
+        },
+        ["flagconv", key, src, n] => match n.parse::<i128>() {
+            Ok(n) => gen_defs::flag_conv(key, src, n).unwrap_or_else(|| "skip".into()),
+            Err(_) => "bad-op".into(),
         },
         _ => "bad-op".into(),
     }
